@@ -77,6 +77,8 @@ AStep(op, p) ==
                           IF Avail(p, op.n) THEN [r |-> Ok(ABytes(p, op.n)), p |-> p + op.n]
                           ELSE [r |-> Eof, p |-> p]
     [] op.op = "eor"   -> IF Avail(p, op.n) THEN [r |-> Ok(<<>>), p |-> p] ELSE [r |-> Eof, p |-> p]
+    \* a request of 2^n bytes (n = 64 stands for usize::MAX): more than any content, consumes nothing
+    [] op.op \in {"hslice", "heor"} -> [r |-> Eof, p |-> p]
     [] op.op = "more"  -> [r |-> Ok(<<IF p < N THEN 1 ELSE 0>>), p |-> p]
     [] op.op = "usize" -> AUsize(p)
 
@@ -197,6 +199,9 @@ ReadUsize(st) ==
          ELSE LET a == ReadSlice(pk.st, len) IN
               IF a.r.t # "ok" THEN a ELSE [st |-> a.st, r |-> Ok(ShrBits(PadTo(a.r.v, 8), len))]
 
+\* stand-in for a length of 2^31 .. usize::MAX in the code-shaped model: larger than any content
+HugeLen == 2 ^ 30
+HugeExps == {31, 40, 63, 64}
 CStep(op, st) ==
   CASE op.op = "u8"    -> Pop(st)
     [] op.op = "peek"  -> Peek(st)
@@ -204,6 +209,8 @@ CStep(op, st) ==
     [] op.op = "slice" -> ReadSlice(st, op.n)
     [] op.op = "arr"   -> ReadArray(st, op.n)
     [] op.op = "eor"   -> CheckEor(st, op.n)
+    [] op.op = "hslice" -> ReadSlice(st, HugeLen)
+    [] op.op = "heor"  -> CheckEor(st, HugeLen)
     [] op.op = "more"  -> HasMore(st)
     [] op.op = "usize" -> ReadUsize(st)
 
@@ -212,6 +219,7 @@ CStep(op, st) ==
 (***************************************************************************)
 Ops == {[op |-> o, n |-> 0] : o \in {"u8", "peek", "bool", "more", "usize"}}
        \cup {[op |-> o, n |-> n] : o \in {"slice", "arr", "eor"}, n \in Ns}
+       \cup {[op |-> "hslice", n |-> e] : e \in HugeExps} \cup {[op |-> "heor", n |-> 63]}
 
 Init == /\ \E k \in Kinds, n \in MinLen..MaxLen : content = MkContent(k, n)
         /\ pat \in Patterns
@@ -245,7 +253,7 @@ Spec == Init /\ [][Next]_vars
 \* reports missing data that is actually available; never panics.
 Agrees(op, res, exp) ==
   /\ res.t # "panic"
-  /\ IF op.op = "eor" THEN (exp.t = "ok" => res.t = "ok") ELSE res = exp
+  /\ IF op.op \in {"eor", "heor"} THEN (exp.t = "ok" => res.t = "ok") ELSE res = exp
 
 Refines == Agrees(last.op, last.res, last.exp)
 
